@@ -19,6 +19,14 @@ import (
 
 const verifDir = "/verif"
 
+// outDir is where evidence and replay files go (the must-fail corpus redirects it to a scratch directory).
+func outDir() string {
+	if d := os.Getenv("VERIF_OUT"); d != "" {
+		return d
+	}
+	return verifDir
+}
+
 // relevant reports whether a clause takes part in the check of property prop:
 // untagged clauses are part of every proof that reaches them.
 func relevant(cl *Clause, prop string) bool {
@@ -410,9 +418,9 @@ func (r *propResult) report() int {
 		"property_id": r.Prop, "tier": r.Tier, "seed": r.Seed, "level": "proof",
 		"coverage": cov, "assumptions": assumptions, "wall_s": r.WallS, "violations": violations,
 	}
-	os.MkdirAll(filepath.Join(verifDir, "evidence"), 0o755)
+	os.MkdirAll(filepath.Join(outDir(), "evidence"), 0o755)
 	data, _ := json.MarshalIndent(ev, "", " ")
-	if err := os.WriteFile(filepath.Join(verifDir, "evidence", r.Prop+".json"), data, 0o644); err != nil {
+	if err := os.WriteFile(filepath.Join(outDir(), "evidence", r.Prop+".json"), data, 0o644); err != nil {
 		fmt.Println("cannot write evidence:", err)
 		return 2
 	}
@@ -421,7 +429,7 @@ func (r *propResult) report() int {
 }
 
 func writeReplay(prop, name string, o *Obligation) string {
-	dir := filepath.Join(verifDir, "replays", prop)
+	dir := filepath.Join(outDir(), "replays", prop)
 	os.MkdirAll(dir, 0o755)
 	path := filepath.Join(dir, sanitize(name)+".json")
 	rec := map[string]interface{}{
@@ -447,8 +455,8 @@ func reportLoadFailure(prop, tier string, seed int, err error) int {
 		"assumptions": []string{}, "wall_s": 0.0, "violations": 1,
 	}
 	data, _ := json.MarshalIndent(ev, "", " ")
-	os.MkdirAll(filepath.Join(verifDir, "evidence"), 0o755)
-	os.WriteFile(filepath.Join(verifDir, "evidence", prop+".json"), data, 0o644)
+	os.MkdirAll(filepath.Join(outDir(), "evidence"), 0o755)
+	os.WriteFile(filepath.Join(outDir(), "evidence", prop+".json"), data, 0o644)
 	return 1
 }
 
